@@ -56,6 +56,7 @@ func cmdVerify(args []string) {
 	out := fs.String("out", "/verif/out/smt", "SMT output dir")
 	verbose := fs.Bool("v", false, "verbose")
 	nosolve := fs.Bool("nosolve", false, "generate only")
+	par := fs.Int("par", 16, "parallel solver processes")
 	fs.Parse(args)
 	t0 := time.Now()
 	g, err := vc.Load(*repo)
@@ -108,7 +109,7 @@ func cmdVerify(args []string) {
 		}
 		return
 	}
-	srs := vc.SolveAll(g, header, results, *out, 16, *timeout, false)
+	srs := vc.SolveAll(g, header, results, *out, *par, *timeout, false)
 	byFn := map[string][]*vc.SolveResult{}
 	for _, s := range srs {
 		byFn[s.Fn] = append(byFn[s.Fn], s)
